@@ -39,13 +39,17 @@ RULES = ['/a', '/a/b', '/a/b/c', '/a/<x>', '/a/<x>/c', '/ab', '/abc', '/a/<v:int
          # only — no probe path leads to their node (the selector's path rewriting is outside the model)
          '/r/<x.rex((a)|(b))[1]>', '/r/<x.rex((a)|(b))[2]>/z',
          # non-ASCII literal text (sent as UTF-8 bytes in latin-1 clothing through WSGI)
-         '/café/<x>', '/café']
+         '/café/<x>', '/café',
+         # slashes at the ends of the rule text are pattern text like any other ('a/b/', 'a/<x>/', 'ab//'): such a
+         # rule is registered, listed, named, found and removed under that pattern (no request path can match it)
+         # (a doubled LEADING slash is refused by an assert in RadiRouter._match: not in the universe)
+         '/a/b/', '/a/<x>/', '/ab//']
 MERGE_FAMILY = ['/i/<id:int>/edit', '/i/<id:int>.json', '/m/<x>', '/m/lit', '/m/<x>/k', '/a/<x>/c', '/a/<x>', '/a/b']
 ALT = {'/a/<x>': '/a/<x2>', '/a/<x>/c': '/a/:k/c', '/<z>': '/{zz}'}        # same pattern, other names
-HOOKS = ['/a', '/a/b', '/a/<x>', '/p', '/a/b/c/d', '/ab', '/', '/café', '/r/<x.rex((a)|(b))[1]>']
+HOOKS = ['/a', '/a/b', '/a/<x>', '/p', '/a/b/c/d', '/ab', '/', '/café', '/r/<x.rex((a)|(b))[1]>', '/a/b/']
 PREFIXES = ['/a/*', '/a*', '/a/b*', '/*', '/p/*', '/ab*', '/a/b/*', '/zz*', '/a/*', '/p/*']
 NAMES = ['n1', 'n2', 'n3']
-PATHS = ['/a/é/c', '/a/é', '/a/é/zz', '/café/ü', '/café', '/cafe/x', '/a/*', '/a/b*', '/a', '/a/b', '/a/b/c', '/a/q', '/a/q/c', '/a/12', '/ab', '/abc', '/abd', '/p/q', '/p/x/y/e', '/p', '/zz', '/',
+PATHS = ['/a/b/', '/ab//', '/a/é/c', '/a/é', '/a/é/zz', '/café/ü', '/café', '/cafe/x', '/a/*', '/a/b*', '/a', '/a/b', '/a/b/c', '/a/q', '/a/q/c', '/a/12', '/ab', '/abc', '/abd', '/p/q', '/p/x/y/e', '/p', '/zz', '/',
          '/a/b/c/d', '/a/b/zz', '/a//c', '/a/b/', '/a/\r/c', '/p/*',
          '/i/5/edit', '/i/5.json', '/i/x/edit', '/i/5', '/m/lit', '/m/zz', '/m/zz/k']
 
@@ -145,6 +149,12 @@ def corpus():
                             dict(op='remove', rule='/a/*'), A('/a/b', 6), A('/a/b*', 7), A('/a/b/c', 8, name='n3'),
                             dict(op='remove', rule='/a/b*'), A('/p/q', 9), A('/p/*', 10), dict(op='remove', rule='/p/*')],
                            full=True))
+    # rules written with a trailing slash: registered, found and removed under the rule as written
+    cs.append(_with_probes([A('/a/b/', 1, name='n1'), A('/a/b', 2, name='n2'), A('/a/<x>/', 4), A('/ab//', 5),
+                            dict(op='add_hook', rule='/a/b/', h=50),
+                            dict(op='by_rule', rule='/a/b/'), dict(op='remove', rule='/a/b/'), dict(op='by_rule', rule='/a/b'),
+                            dict(op='remove_hook', rule='/a/b/'),
+                            dict(op='remove_obj', rule='/a/<x>/'), dict(op='remove', rule='/ab//'), A('/a/b/', 6, name='n2')], full=True))
     # rex rules with a selector can be removed / found by their rule text and by name; their hooks too
     cs.append(_with_probes([A('/r/<x.rex((a)|(b))[1]>', 1, name='n1'), A('/r/<x.rex((a)|(b))[2]>/z', 2),
                             dict(op='add_hook', rule='/r/<x.rex((a)|(b))[1]>', h=50), A('/a/b', 3),
